@@ -41,6 +41,7 @@ import itertools
 
 import numpy as np
 
+from vmc import bfs
 from vmc import common
 from vmc.parallel import run_shards, shard
 from vmc.report import Check
@@ -127,7 +128,7 @@ def canon(x, depth=0):
     if isinstance(x, dict):
         return ("D", tuple(sorted(((repr(k), canon(v, depth + 1)) for k, v in x.items()))))
     if hasattr(x, "__dict__"):
-        return ("O", type(x).__name__, canon(vars(x), depth + 1))
+        return ("O", type(x).__name__, canon(bfs.state_of(x), depth + 1))
     return ("?", repr(x))
 
 
@@ -434,19 +435,19 @@ class Exec:
             r = self.run(term[1])
             r.update(*copy.deepcopy(self.obs[term[2]]))
             self.updates += 1
-            self.c.outcome("result_states", dg(canon(vars(r))))
+            self.c.outcome("result_states", dg(canon(bfs.state_of(r))))
         else:
             r = self.run(term[1])
             o = self.run(term[2])
-            snap = canon(vars(o))
+            snap = canon(bfs.state_of(o))
             info = summary(o)
             r.merge(o)
             self.merges += 1
             self.operands.append((o, snap, info))
             for (oo, ss, ii) in self.operands:
-                if canon(vars(oo)) != ss and not self.mutated:
+                if canon(bfs.state_of(oo)) != ss and not self.mutated:
                     self.mutated.append((ii, ss, summary(oo)))
-            self.c.outcome("result_states", dg(canon(vars(r))))
+            self.c.outcome("result_states", dg(canon(bfs.state_of(r))))
         return r
 
 
@@ -584,16 +585,16 @@ def run_set_case(c, case):
                 return objs[t]
             left = run(t[0])
             right = run(t[1])
-            snap = canon(vars(right))
+            snap = canon(bfs.state_of(right))
             info = "into_empty_accumulator" if len(left) == 0 else "into_nonempty_set"
             before = summary(right)
             getattr(left, func)(right)
             nops[0] += 1
             operands.append((right, snap, info, before))
             for (oo, ss, ii, bb) in operands:
-                if canon(vars(oo)) != ss and ii not in [m[0] for m in mutated]:
+                if canon(bfs.state_of(oo)) != ss and ii not in [m[0] for m in mutated]:
                     mutated.append((ii, bb, summary(oo)))
-            c.outcome("set_states", dg(canon(vars(left))))
+            c.outcome("set_states", dg(canon(bfs.state_of(left))))
             return left
 
         final = run(tree)
@@ -653,7 +654,7 @@ def run_fold_case(c, case):
         for ci, ((a, b), op) in enumerate(zip(chunks, ops)):
             obn = {n: [o[n] for o in obs[a:b]] for n in ("a", "b")}
             s = make_set(types, acc, obn, None)
-            snap, before = canon(vars(s)), summary(s)
+            snap, before = canon(bfs.state_of(s)), summary(s)
             if op == "m":
                 accu.merge_all_results(s)
                 merged_in.append((s, snap, before, ci))
@@ -667,9 +668,9 @@ def run_fold_case(c, case):
                 for n in ("a", "b"):
                     model[n].append(list(obn[n]))
             c.transitions += 1
-            c.outcome("set_states", dg(canon(vars(accu))))
+            c.outcome("set_states", dg(canon(bfs.state_of(accu))))
             for (oo, ss, bb, k) in merged_in:
-                if canon(vars(oo)) != ss:
+                if canon(bfs.state_of(oo)) != ss:
                     c.fail(("merge_all_results", "operand_mutated",
                             "into_empty_accumulator" if k == 0 else "into_nonempty_set"), case,
                            observed=summary(oo), expected=bb,
@@ -941,14 +942,14 @@ def run_union_case(c, case):
         ord2 = [(rx, ry) for rx in ox2 for ry in (oy2 if oy2 is not None else [None])]
         emp1 = empty_positions(empty, 0, len(ord1))
         emp2 = empty_positions(empty, 1, len(ord2))
-        snap1, snap2 = canon(vars(s1)), canon(vars(s2))
+        snap1, snap2 = canon(bfs.state_of(s1)), canon(bfs.state_of(s2))
         u = combine_simulation_results(s1, s2)
         c.count("eval_union_cases")
         c.transitions += 1
         c.traces_validated += 1
         c.nontriv(("u", universe, t, acc, hv, repr((x1, x2, y1, y2)), case["order"], str(empty), k))
         c.outcome("union_universes", universe)
-        if canon(vars(s1)) != snap1 or canon(vars(s2)) != snap2:
+        if canon(bfs.state_of(s1)) != snap1 or canon(bfs.state_of(s2)) != snap2:
             c.fail(("combine_simulation_results", "operand_mutated"), case,
                    observed="operand changed", expected="operands unchanged")
         # the universes are listed in increasing order, so rank order = value order
